@@ -36,18 +36,21 @@ def table(full):
     # 0.1, 2.7, -0.3: not dyadic — the float32 and the float64 nearest to them differ, and so do their %v texts when a
     # float32 is widened before it is printed
     fl = [0.0, 1.0, -1.0, 1.5, -1.5, 0.5, 2.0, 100.0, 0.25, 10.0, 9.0, 255.0, 127.0, 1e6, 123456.5, 2.0**53, -2.0**53, 3.0e9,
-          0.1, 2.7, -0.3, 1e20, 1.5e19, -1e20, 1e300, 1e200, 2.0**63, 2.0**64]
+          0.1, 2.7, -0.3, 1e20, 1.5e19, -1e20, 1e300, 1e200, 2.0**63, 2.0**64,
+          # where the %v text of a float changes shape: 999999 / 1e+06 / 1.000001e+06, 0.0001 / 1e-05, 1e+21
+          -1e6, 999999.0, 1000001.0, 1e7, 1e21, 0.0001, 0.00001, 100000.0, 1234567.0]
     if not full:
         # (whole floats beyond the 64-bit integer range stay floats: no integer path may take them)
-        fl = [0.0, 1.0, -1.0, 1.5, 0.5, 2.0, 10.0, 2.0**53, 0.1, -0.3, 1e20, 1.5e19, 1e300, 2.0**63]
+        fl = [0.0, 1.0, -1.0, 1.5, 0.5, 2.0, 10.0, 2.0**53, 0.1, -0.3, 1e20, 1.5e19, 1e300, 2.0**63, 1e6, -1e6, 100000.0, 0.00001]
     for x in fl:
         vals.append(({"t": "float64", "v": str(f2bits(x))}, ("flt", Fraction(x))))
         if abs(x) < 3.0e38:      # (a float32 holds nothing larger)
             vals.append(({"t": "float32", "v": str(f32bits(x))}, ("flt", Fraction(struct.unpack("<f", struct.pack("<f", x))[0]))))
     strs = ["", "1", "1.5", "10", "9", "a", "ab", "b", "-1", "true", "<nil>", "A", "é", "1e+06", "0.1", "2.7", "-0.3",
-            "0.10000000149011612"]
+            "0.10000000149011612", "1000000", "11", "1a", "-1e+06", "-1000000", "-11", "1e-05", "0.00001", "1e+21", "100000",
+            "1.234567e+06", "1234567", "1e+07"]
     if not full:
-        strs = ["", "1", "1.5", "10", "a", "ab", "-1", "0.1", "-0.3"]
+        strs = ["", "1", "1.5", "10", "a", "ab", "-1", "0.1", "-0.3", "1e+06", "1000000", "11", "-11", "1e-05"]
     for s in strs:
         vals.append(({"t": "string", "v": s}, ("str", s)))
     vals.append(({"t": "bool", "v": "true"}, ("other", "true")))
